@@ -718,9 +718,9 @@ func TestC32(t *testing.T) {
 	r.Assume("io.Reader contract: Read on a non-empty buffer returns n > 0 or a non-nil error; bytes are delivered only through buf[:n]")
 
 	r.Cases("transport-selfcheck", r.N(40, 400), transportSelfCheck)
-	r.Cases("trusting", r.N(300, 8000), trustingSession)
-	r.Cases("stream", r.N(1400, 100000), func(c *ev.Case) { session(c, false) })
-	r.Cases("corrupt", r.N(600, 40000), func(c *ev.Case) { session(c, true) })
+	r.Cases("trusting", r.N(300, 6000), trustingSession)
+	r.Cases("stream", r.N(1400, 80000), func(c *ev.Case) { session(c, false) })
+	r.Cases("corrupt", r.N(600, 30000), func(c *ev.Case) { session(c, true) })
 
 	r.Floor("transport_selfcheck_ok", 40)
 	r.Floor("sessions_clean", 1200)
